@@ -80,6 +80,32 @@ def prepare(need_harness=True):
     return P
 
 
+# which properties depend on the constants the translator reads from a file (Generated.v): a failed extraction is a broken
+# obligation of those properties only
+_TRANSFORM = {"C01", "C02", "C03", "C04", "C05", "C06", "C07", "C08", "C12", "C15"}
+TRANSLATOR_SCOPE = {
+    "main.js": {"C11", "C12", "C16"},
+    "js/source-map/index.js": {"C11"},
+    "src/visitor/literal_visitor.rs": {"C14"},
+    "src/telemetry.rs": {"C05", "C12", "C15"},
+    "src/lib_wasm.rs": {"C05"},
+    "src/util.rs": {"C05", "C13"},
+    "src/rewriter.rs": {"C05", "C08", "C09", "C10", "C12", "C16"},
+    "src/visitor/visitor_util.rs": _TRANSFORM | {"C06", "C09"},
+    "src/visitor/operation_transform_visitor.rs": _TRANSFORM,
+    "src/visitor/csi_methods.rs": _TRANSFORM,
+    "src/transform/function_prototype_transform.rs": _TRANSFORM,
+    "src/visitor/block_transform_visitor.rs": _TRANSFORM,
+}
+
+
+def translator_error_concerns(err, pid):
+    m = re.search(r"\[([^\]]+)\] cannot extract", err)
+    if not m or m.group(1) not in TRANSLATOR_SCOPE:
+        return True
+    return pid in TRANSLATOR_SCOPE[m.group(1)] or pid == "C13"   # C13 also owns the inventory of partial operations
+
+
 def proof_obligations(pid):
     """Compile Properties/<pid>.v on its own, capturing what Print Assumptions reports.
     Returns dict(obligations, discharged, theorems, problems, checker_cmd)."""
